@@ -43,17 +43,19 @@ def check_case(rep, case, name):
     for p, f in zip(case['pots'], fs):
         if lines[i] != '%8s%8s' % (p['A'], p['B']): rep.dev(name, case, 'block header %r' % lines[i], '%8s%8s' % (p['A'], p['B'])); return
         i += 1
-        vals = []
+        vals = []; prec = []
         for _ in range(2 * n // 4):
             l = lines[i]; i += 1
             if len(l) != 60: rep.dev(name, case, 'record %r' % l, 'four 15-character fields'); return
             vals += [float(l[j:j + 15]) for j in (0, 15, 30, 45)]
+            # 'to the printed precision': a field with a three-digit exponent has six decimals, all others seven
+            prec += [2e-7 if len(l[j:j + 15].split('e')[0].split('.')[1]) >= 7 else 2e-6 for j in (0, 15, 30, 45)]
         es, fo = vals[:n], vals[n:]
         for k in range(1, n + 1):
             r = k * delpot
-            if not close(es[k - 1], f(r), 2e-7, 1e-12): rep.dev(name, case, 'energy %d = %r' % (k, es[k - 1]), 'V(%r)=%r' % (r, f(r))); return
+            if not close(es[k - 1], f(r), prec[k - 1], 1e-12): rep.dev(name, case, 'energy %d = %r' % (k, es[k - 1]), 'V(%r)=%r' % (r, f(r))); return
             want = -r * f.d(r)
-            tol = 2e-7 if p['fn'].get('deriv', True) else 3e-5
+            tol = prec[n + k - 1] if p['fn'].get('deriv', True) else 3e-5
             if not close(fo[k - 1], want, tol, tol * 1e-3): rep.dev(name, case, 'force value %d = %r' % (k, fo[k - 1]), '-r dV/dr at %r = %r' % (r, want)); return
             rep.ok(2)
     if [l for l in lines[i:] if l.strip()]: rep.dev(name, case, 'trailing lines %r' % lines[i:i + 2], 'end of file')
@@ -113,6 +115,12 @@ if __name__ == '__main__':
     else:
         rng = random.Random(pl.get('seed', 0))
         factory_cases(rep)
+        # magnitudes with three-digit exponents (a steep Born-Mayer tail, a huge amplitude): the records still are four 15-character fields
+        for j, spec in enumerate([dict(kind='exp', A=1000.0, b=1.0 / 0.03, deriv=True), dict(kind='exp', A=1e120, b=0.5, deriv=True), dict(kind='exp', A=2.5e-80, b=8.0, deriv=False)]):
+            c = dict(route=['class', 'writePotentials', 'class'][j], cutoff=10.0, nr=[8, 12, 16][j], pots=[dict(A='O', B='U', fn=spec)]); rep.case('extreme-magnitudes', c); check_case(rep, c, 'extreme-%d' % j)
+        # a model without potentials: the row count rule does not depend on there being a block to write
+        for j, nr_ in enumerate([10, 12, 7]):
+            c = dict(route=['writePotentials', 'class', 'class'][j], cutoff=10.0, nr=nr_, pots=[]); rep.case('no-potentials' + ('/reject' if nr_ % 4 else ''), c); check_case(rep, c, 'no-potentials-%d' % nr_)
         for i in range(pl.get('n', 40)):
             c = gen_case(rng); rep.case(c['route'] + ('/reject' if c['nr'] % 4 else '') + ('/root-on-grid' if c['cutoff'] == 8.0 and c['nr'] in (36, 68, 132) else ''), c); check_case(rep, c, 'seeded-%d' % i)
     rep.finish()
